@@ -3,7 +3,7 @@ import FimVerif.Generated.Cypher
 /-!
 Driver for C19.  Requests:
   ["render", key, variant, idents, values, maps]    idents/values: [[name, text]...]; maps: [[name, [[identPairs, valuePairs]...]]...]
-     -> ok {text, supplied, vf, defects, unbound, missing}
+     -> ok {text, supplied, vf, reachable, defects, unbound, missing}
   ["lint", text, [supplied...]]                     -> ok {defects, unbound, missing}
   ["variants", key]                                 -> ok number of variants generated for the call site
 -/
@@ -52,7 +52,8 @@ def handle (j : Json) : Json :=
       | some op =>
         let e : Env := ⟨ids, vals, maps⟩
         let t := render e op.tpl
-        ok (Json.mkObj ([("text", txt t), ("supplied", Json.arr (op.supplied.map txt).toArray), ("vf", Json.bool (valueFree op.tpl))]
+        ok (Json.mkObj ([("text", txt t), ("supplied", Json.arr (op.supplied.map txt).toArray), ("vf", Json.bool (valueFree op.tpl)),
+                         ("reachable", Json.bool (op.reachable e))]
                         ++ lintJson (lint t op.supplied)))
       | none => err "no-such-op"
     | _, _, _, _ => err "bad-args"
